@@ -885,8 +885,8 @@ func (m *Model) RunFreshContext(s *Sink, rule string) {
 		if !isC || !isEvalCall(m, c) {
 			return
 		}
-		if nc, isN := resolve(c.Call.Args[0]).(*ssa.Call); isN && nc.Call.StaticCallee() != nil && canonFnName(nc.Call.StaticCallee()) == "New" && inPkg(nc.Call.StaticCallee(), "evaluator") {
-			if cc, isCC := resolve(nc.Call.Args[0]).(*ssa.Call); isCC && cc.Call.StaticCallee() != nil && canonFnName(cc.Call.StaticCallee()) == "NewContext" {
+		if nc, isN := m.throughCtor(resolve(c.Call.Args[0])).(*ssa.Call); isN && nc.Call.StaticCallee() != nil && canonFnName(nc.Call.StaticCallee()) == "New" && inPkg(nc.Call.StaticCallee(), "evaluator") {
+			if cc, isCC := m.throughCtor(resolve(nc.Call.Args[0])).(*ssa.Call); isCC && cc.Call.StaticCallee() != nil && canonFnName(cc.Call.StaticCallee()) == "NewContext" {
 				ok = true
 			}
 		}
